@@ -40,7 +40,7 @@ Section Main.
 
   Lemma NI_ext : forall s s' cF cS D, NI s -> Ext s s' cF cS D -> NI s'.
   Proof.
-    intros s s' cF cS D [N1 N2] [[eF [A1 A1']] _ _ _ _ _ A7 A8 _]. split.
+    intros s s' cF cS D [N1 N2] [[eF [A1 A1']] _ _ _ _ _ A7 A8 _ _ _]. split.
     - intros q g Hq. destruct (A7 q g Hq) as [H|[H|H]].
       + destruct (N1 q g H) as [X|X]; [left; exact X|right]. rewrite A1, mem_path_app, X. apply orb_true_r.
       + left. apply N2. exact H.
@@ -50,7 +50,7 @@ Section Main.
 
   Lemma PersT_back : forall s s' cF cS D, Ext s s' cF cS D -> PersT s' -> PersT s.
   Proof.
-    intros s s' cF cS D [[eF [A1 _]] _ _ _ A5 _ _ _ _] P q g Hq Hl. apply P; [|apply A5; assumption].
+    intros s s' cF cS D [[eF [A1 _]] _ _ _ A5 _ _ _ _ _ _] P q g Hq Hl. apply P; [|apply A5; assumption].
     rewrite A1, mem_path_app, Hq. apply orb_true_r.
   Qed.
 
@@ -74,7 +74,7 @@ Section Main.
 
   Lemma ClOK_ext : forall cl s s' cF cS D, ClOK cl s -> Ext s s' cF cS D -> ClOK (fst cl ++ cF, snd cl ++ cS) s'.
   Proof.
-    intros cl s s' cF cS D [C1 C2] [[eF [A1 A1']] [eS [A2 A2']] _ _ _ _ _ _ _]. split; cbn [fst snd].
+    intros cl s s' cF cS D [C1 C2] [[eF [A1 A1']] [eS [A2 A2']] _ _ _ _ _ _ _ _ _]. split; cbn [fst snd].
     - intros q Hq. rewrite mem_path_app in Hq. rewrite A1, mem_path_app. apply orb_true_iff in Hq. destruct Hq as [Hq|Hq].
       + rewrite (C1 q Hq). apply orb_true_r.
       + apply mem_path_In in Hq. apply A1' in Hq. apply mem_path_In in Hq. rewrite Hq. reflexivity.
@@ -83,4 +83,889 @@ Section Main.
       + apply existsb_exists in Hq. destruct Hq as [x [Hx Hp]]. apply A2' in Hx.
         assert (existsb (py_eq (subbuild_key f a k)) eS = true) by (apply existsb_exists; eauto). rewrite H. reflexivity.
   Qed.
+
+  (* ---------------------------------------------------------------- *)
+  (* a hit, unpacked: the old record, its trace, and the outputs of the adopted tree *)
+  (* ---------------------------------------------------------------- *)
+  Lemma hitF_more : forall s r tgt p c fname sa skw fs1 fs1r dirs f subs' ret' rp' (fn : path -> pyval -> pyval -> prog),
+    sim s r -> KI s -> RInv' tgt r ->
+    claim_check (r_claimedF r) (r_cachefile r) p = None ->
+    setup_fs (k_fs s) (k_cachefile s) p = inl (fs1, dirs) ->
+    setup_fs (r_fs r) (r_cachefile r) p = inl (fs1r, dirs) -> tree_equiv fs1 fs1r ->
+    core_hit s (core_s0 s p fs1 dirs) p fname sa skw = Some (f, subs', ret', rp') ->
+    fn p sa skw = ft_file F fname p sa skw ->
+    exists r2 res pend2 r3 c' a' k' cmpres',
+      ref_run (fn p sa skw) (Some p) None (ref_start r p fname sa skw fs1r dirs) = (r2, (res, pend2)) /\
+      ref_finish r2 p res pend2 = (r3, inl ret') /\
+      sim (core_put (adopt (core_s0 s p fs1 dirs) rp' (OBuildFile p c fname sa skw subs' ret' (cmp_of c f) false false)) p f) r3 /\
+      KI (core_put (adopt (core_s0 s p fs1 dirs) rp' (OBuildFile p c fname sa skw subs' ret' (cmp_of c f) false false)) p f) /\
+      RInv' tgt r3 /\ rext r r3 /\
+      dfaith kp F (OBuildFile p c' fname a' k' subs' ret' cmpres' false false) /\
+      follows kp (Some p) (fn p sa skw) subs' None ([p], []) = Some (res, pend2, [], ([p] ++ fst (cll subs'), [] ++ snd (cll subs'))) /\
+      bf_end kp p c' subs' ret' cmpres' false res pend2 ([p] ++ fst (cll subs'), [] ++ snd (cll subs')) = Some (inl ret') /\
+      phys (k_fs (core_s0 s p fs1 dirs)) (k_stale (core_s0 s p fs1 dirs)) p = Some f /\
+      is_equal cmpres' (cmp_of c' f) = true /\
+      kreplay_list (core_s0 s p fs1 dirs) subs' (start_replay (core_s0 s p fs1 dirs)) = Some rp' /\
+      (forall q, In q (p :: flat_map tree_outputs subs') -> In q (r_need r3)).
+  Proof.
+    intros s r tgt p c fname sa skw fs1 fs1r dirs f subs' ret' rp' fn S K I Hcc Hsk Hsr T1 Hhit Hfn.
+    destruct (hit_file kp F old vers clock0 HR HW HF s r tgt p c fname sa skw fs1 fs1r dirs f subs' ret' rp' fn S K I Hcc Hsk Hsr T1 Hhit Hfn)
+      as (r2 & res & pend2 & r3 & Er2 & Ef & S3 & K3 & I3 & X3).
+    exists r2, res, pend2, r3.
+    assert (Wk : fs_wf (k_fs s)) by (eapply te_wf; [apply te_sym; exact (proj1 S)|exact (RInv_wf _ _ I)]).
+    pose proof (KInv_s0 kp old vers clock0 s p fs1 dirs K Wk Hsk) as K0.
+    set (s0 := core_s0 s p fs1 dirs) in *.
+    destruct K as [Hold [Hvers [K1 [K2 Kc]]]].
+    unfold core_hit in Hhit. rewrite Hold in Hhit.
+    destruct (cache_get_file old p) as [orec|] eqn:Eg; [|discriminate].
+    destruct orec as [|p' c' fname' a' k' subs0 ret0 cmpres' raised' sf'|]; try discriminate.
+    destruct raised'; [discriminate|].
+    destruct (negb (String.eqb fname' fname)) eqn:Efn; [discriminate|]. apply negb_false_iff, String.eqb_eq in Efn. subst fname'.
+    destruct (negb (kversion_equal s fname)) eqn:Ev; [discriminate|]. apply negb_false_iff in Ev.
+    destruct (negb (is_equal a' sa) || negb (is_equal k' skw)) eqn:Ea; [discriminate|].
+    apply orb_false_iff in Ea. destruct Ea as [Ea Ek]. apply negb_false_iff in Ea, Ek.
+    destruct (phys (k_fs s0) (k_stale s0) p) as [f0|] eqn:Eph; [|discriminate].
+    destruct (negb (is_equal cmpres' (cmp_of c' f0))) eqn:Ecmp; [discriminate|]. apply negb_false_iff in Ecmp.
+    destruct (kreplay_list s0 subs0 (start_replay s0)) as [rpx|] eqn:Ekr; [|discriminate].
+    inversion Hhit; subst f0 subs0 ret0 rpx. clear Hhit.
+    pose proof (cache_get_file_files _ _ _ Eg) as Hfiles.
+    pose proof HW as [HWf _]. destruct (HWf p _ Hfiles) as (c2 & f2 & a2 & k2 & subs2 & ret2 & cmp2 & ra2 & sf2 & Heq & Hsf).
+    inversion Heq; subst p' c2 f2 a2 k2 subs2 ret2 cmp2 ra2 sf2. clear Heq.
+    destruct sf'; [specialize (Hsf eq_refl); discriminate|]. clear Hsf.
+    assert (Hrep : replayable old vers (OBuildFile p c' fname a' k' subs' ret' cmpres' false false) = true).
+    { cbn [replayable negb andb]. rewrite kversion_vers, Hold, Hvers in Ev. rewrite Ev. cbn [andb].
+      pose proof (kreplay_list_replayable _ _ _ _ Ekr) as Hx. cbn in Hx. rewrite Hold, Hvers in Hx. exact Hx. }
+    exists c', a', k', cmpres'.
+    pose proof HD as [HDf _]. pose proof (HDf p _ Hfiles eq_refl Hrep) as Hdf.
+    pose proof HF as [HFf _]. pose proof (HFf p _ Hfiles eq_refl Hrep) as Hfa. cbn [faithful_op] in Hfa.
+    destruct (follows kp (Some p) (ft_file F fname p a' k') subs' None ([p], [])) as [[[[out_n bytes_n] rest_n] cl2]|] eqn:Efo;
+      [|discriminate].
+    destruct rest_n; [|discriminate].
+    destruct (bf_end kp p c' subs' ret' cmpres' false out_n bytes_n cl2) as [oo|] eqn:Ebe; [|discriminate].
+    pose proof (bf_end_nonraised _ _ _ _ _ _ _ _ _ _ Ebe). subst oo. clear Hfa.
+    rewrite (HR fname p a' sa k' skw Ea Ek) in Efo. rewrite <- Hfn in Efo.
+    destruct (RInv_start tgt r p fname sa skw fs1r dirs I Hcc Hsr) as [I1 X1].
+    destruct (claim_check_none _ _ _ Hcc) as [Hpc _].
+    assert (Hnf : isfile (k_fs s) p = false).
+    { destruct (isfile (k_fs s) p) eqn:Ei; [|reflexivity].
+      pose proof (K2 p _ Eg eq_refl Ei) as Hx. rewrite (proj1 (proj2 S) p) in Hx. congruence. }
+    assert (Htr : try_remove fs1r p = fs1r).
+    { unfold try_remove. rewrite <- (te_isfile _ _ p T1).
+      destruct (setup_fs_ok _ _ _ _ _ Wk Hsk) as [_ [_ [_ [_ [_ [_ [_ [_ Hisf]]]]]]]]. rewrite Hisf, Hnf. reflexivity. }
+    assert (Hph : forall q g, phys (k_fs s0) (k_stale s0) q = Some g -> agrees kp q g).
+    { intros q g Hq. destruct K0 as [_ [_ [K1' _]]]. apply K1'. apply phys_cases. exact Hq. }
+    assert (M0 : RM kp s0 (start_replay s0) (ref_start r p fname sa skw fs1r dirs) ([p], [])).
+    { destruct S as [Tt [CF [CS [N [Md E]]]]]. constructor; cbn.
+      - rewrite Htr. exact T1.
+      - rewrite N. reflexivity.
+      - rewrite Md. reflexivity.
+      - symmetry. exact E.
+      - intro q. rewrite (CF q), orb_false_r. apply orb_comm.
+      - intro k. rewrite (CS k), orb_false_r. reflexivity.
+      - intros q Hq. left. exact Hq.
+      - intros q g Hq. destruct K0 as [_ [_ [K1' _]]]. apply K1'. left. exact Hq.
+      - intros q Hq. left. exact Hq.
+      - reflexivity.
+      - reflexivity. }
+    destruct (replay_sound kp s0 Hph (fn p sa skw) (Some p) subs' None ([p], []) out_n bytes_n cl2 (start_replay s0) rp' _
+                Efo Ekr M0 I1) as [r2' [Er2' [M2 O2]]].
+    rewrite Er2 in Er2'. inversion Er2'; subst r2' out_n bytes_n. clear Er2'.
+    pose proof (follows_claims _ _ _ _ _ _ _ _ _ Efo) as Hcl2. cbn [fst snd] in Hcl2. subst cl2.
+    destruct (ref_run_inv _ _ _ _ _ _ _ I1 Er2) as [I2 X2].
+    split; [exact Er2|]. split; [exact Ef|]. split; [exact S3|]. split; [exact K3|]. split; [exact I3|]. split; [exact X3|].
+    split; [exact Hdf|]. split; [exact Efo|]. split; [exact Ebe|]. split; [reflexivity|]. split; [exact Ecmp|]. split; [exact Ekr|].
+    (* the outputs are needed: the final write succeeded, the need list is that of r2 *)
+    assert (Hneed : r_need r3 = r_need r2).
+    { unfold ref_finish in Ef. destruct res as [v|e]; [|inversion Ef]. destruct (sanitize v); [|inversion Ef].
+      destruct pend2; [|inversion Ef]. destruct (write_file (r_fs r2) p s1 None (r_clock r2) (r_nextid r2)); inversion Ef. reflexivity. }
+    rewrite Hneed. intros q [<-|Hq].
+    - destruct I2 as [[_ [_ Tg]] _]. apply Tg. reflexivity.
+    - exact (proj1 (O2 q Hq)).
+  Qed.
+
+  Lemma hitS_more : forall s r tgt fname sa skw subs' ret' rp' (fn : pyval -> pyval -> prog),
+    sim s r -> KI s -> RInv' tgt r -> sanitized sa = true -> sanitized skw = true ->
+    core_subhit s fname (subbuild_key fname sa skw) = Some (subs', ret', rp') ->
+    fn sa skw = ft_sub F fname sa skw ->
+    exists r2 res pd a' k',
+      ref_run (fn sa skw) None None (ref_substart r fname sa skw) = (r2, (res, pd)) /\
+      sub_out res = inl ret' /\
+      sim (adopt s rp' (OSubbuild fname sa skw subs' ret' false false)) r2 /\
+      KI (adopt s rp' (OSubbuild fname sa skw subs' ret' false false)) /\
+      RInv' tgt r2 /\ rext r r2 /\
+      dfaith kp F (OSubbuild fname a' k' subs' ret' false false) /\
+      is_equal a' sa = true /\ is_equal k' skw = true /\
+      follows kp None (fn sa skw) subs' None ([], [subbuild_key fname sa skw]) =
+        Some (res, pd, [], ([] ++ fst (cll subs'), [subbuild_key fname sa skw] ++ snd (cll subs'))) /\
+      sb_end ret' false res = Some (inl ret') /\
+      kreplay_list s subs' (start_replay s) = Some rp' /\
+      (forall q, In q (flat_map tree_outputs subs') -> In q (r_need r2)).
+  Proof.
+    intros s r tgt fname sa skw subs' ret' rp' fn S K I Ssa Sskw Hhit Hfn.
+    destruct (hit_sub kp F old vers clock0 HW HF s r tgt fname sa skw subs' ret' rp' fn S K I Ssa Sskw Hhit Hfn)
+      as (r2 & res & pd & Er2 & Hout & S3 & K3 & I3 & X3).
+    exists r2, res, pd.
+    pose proof K as K'. destruct K as [Hold [Hvers [K1 [K2 Kc]]]].
+    unfold core_subhit in Hhit. rewrite Hold in Hhit.
+    destruct (subs_get (c_subs old) (subbuild_key fname sa skw)) as [[orec|]|] eqn:Eg; try discriminate.
+    destruct orec as [| |f' a' k' subs0 ret0 raised' sf']; try discriminate.
+    destruct raised'; [discriminate|].
+    destruct (negb (kversion_equal s fname)) eqn:Ev; [discriminate|]. apply negb_false_iff in Ev.
+    destruct (kreplay_list s subs0 (start_replay s)) as [rpx|] eqn:Ekr; [|discriminate].
+    inversion Hhit; subst subs0 ret0 rpx. clear Hhit.
+    pose proof HW as [_ HWs]. destruct (HWs _ _ Eg) as (f2 & a2 & k2 & subs2 & ret2 & ra2 & sf2 & Heq & Hsf & Sa' & Sk' & Hkey).
+    inversion Heq; subst f2 a2 k2 subs2 ret2 ra2 sf2. clear Heq.
+    destruct sf'; [specialize (Hsf eq_refl); discriminate|]. clear Hsf.
+    unfold subbuild_key in Hkey. rewrite (subbuild_key_iff f' a' k' fname sa skw Sa' Sk' Ssa Sskw) in Hkey.
+    apply andb_true_iff in Hkey. destruct Hkey as [Hkey Ek]. apply andb_true_iff in Hkey. destruct Hkey as [Efn Ea].
+    apply String.eqb_eq in Efn. subst f'.
+    assert (Hrep : replayable old vers (OSubbuild fname a' k' subs' ret' false false) = true).
+    { cbn [replayable negb andb]. rewrite kversion_vers, Hold, Hvers in Ev. rewrite Ev. cbn [andb].
+      pose proof (kreplay_list_replayable _ _ _ _ Ekr) as Hx. rewrite Hold, Hvers in Hx. exact Hx. }
+    exists a', k'.
+    pose proof HD as [_ HDs]. pose proof (HDs _ _ Eg eq_refl Hrep) as Hdf.
+    pose proof HF as [_ HFs].
+    pose proof (HFs _ _ _ _ _ _ _ _ Eg eq_refl Hrep sa skw Ssa Sskw Ea Ek) as Hfa. cbn [faithful_sub_at] in Hfa.
+    destruct (follows kp None (ft_sub F fname sa skw) subs' None ([], [subbuild_key fname sa skw])) as [[[[out_n bytes_n] rest_n] cl2]|] eqn:Efo;
+      [|discriminate].
+    destruct rest_n; [|discriminate].
+    destruct (sb_end ret' false out_n) as [oo|] eqn:Ebe; [|discriminate]. clear Hfa.
+    pose proof (sb_end_nonraised _ _ _ Ebe). subst oo.
+    rewrite <- Hfn in Efo.
+    destruct (RInv_substart tgt r fname sa skw I) as [I1 X1].
+    assert (Hph : forall q g, phys (k_fs s) (k_stale s) q = Some g -> agrees kp q g).
+    { intros q g Hq. apply K1. apply phys_cases. exact Hq. }
+    assert (M0 : RM kp s (start_replay s) (ref_substart r fname sa skw) ([], [subbuild_key fname sa skw])).
+    { destruct S as [Tt [CF [CS [N [Md E]]]]]. constructor.
+      - exact Tt.
+      - exact N.
+      - exact Md.
+      - symmetry. exact E.
+      - cbn. intro q. rewrite (CF q), orb_false_r. reflexivity.
+      - intro k. cbn [fst snd]. change (r_claimedS (ref_substart r fname sa skw)) with (subbuild_key fname sa skw :: r_claimedS r).
+        cbn [existsb start_replay rp_claimedS]. rewrite (CS k), orb_false_r. apply orb_comm.
+      - intros q Hq. left. exact Hq.
+      - cbn. intros q g Hq. apply K1. left. exact Hq.
+      - intros q Hq. left. exact Hq.
+      - reflexivity.
+      - reflexivity. }
+    destruct (replay_sound kp s Hph (fn sa skw) None subs' None _ out_n bytes_n cl2 (start_replay s) rp' _ Efo Ekr M0 I1)
+      as [r2' [Er2' [M2 O2]]].
+    rewrite Er2 in Er2'. inversion Er2'; subst r2' out_n bytes_n. clear Er2'.
+    pose proof (follows_claims _ _ _ _ _ _ _ _ _ Efo) as Hcl2. cbn [fst snd] in Hcl2. subst cl2.
+    split; [exact Er2|]. split; [exact Hout|]. split; [exact S3|]. split; [exact K3|]. split; [exact I3|]. split; [exact X3|].
+    split; [exact Hdf|]. split; [exact Ea|]. split; [exact Ek|]. split; [exact Efo|]. split; [exact Ebe|]. split; [exact Ekr|].
+    intros q Hq. exact (proj1 (O2 q Hq)).
+  Qed.
+
+  (* ---------------------------------------------------------------- *)
+  (* the statement                                                    *)
+  (* ---------------------------------------------------------------- *)
+  Definition Good (s s' : kstate) (tgt : option path) (pr : prog) (pend pend' : option string) (out : outcome)
+             (produced : list op) : Prop :=
+    (forall cl, ClOK cl s -> tame_list produced (fst cl) = true ->
+       follows kq tgt pr produced pend cl =
+       Some (out, pend', [], (fst cl ++ fst (cll produced), snd cl ++ snd (cll produced)))) /\
+    (forall o, In o (deepl produced) -> tame [] o = true -> dfaith kq F o) /\
+    (forall q, In q (flat_map tree_outputs produced) -> In q (k_need s') /\ mem_path q (k_claimedF s) = false) /\
+    (forall o, In o (deepl produced) -> wfrec o).
+
+  Definition TN_at (pr : prog) : Prop :=
+    forall tgt pend subs s r s' out pend' subs' r' out_r pend_r produced,
+      sim s r -> KI s -> RInv' tgt r -> sublog (k_log s) (r_log r) ->
+      core_run pr tgt pend subs s = (s', (out, pend', subs')) ->
+      ref_run pr tgt pend r = (r', (out_r, pend_r)) ->
+      NI s -> PersT s' -> subs' = subs ++ produced ->
+      Good s s' tgt pr pend pend' out produced.
+
+  Lemma split_produced : forall (subs produced : list op) o pk, subs ++ produced = (subs ++ [o]) ++ pk -> produced = o :: pk.
+  Proof. intros subs produced o pk H. rewrite <- app_assoc in H. apply app_inv_head in H. exact H. Qed.
+
+  Lemma ask_step : forall s q, KI s -> NI s -> PersT s ->
+    match spec_answer (k_fs s) q with
+    | inl v => exists rv, record_answer (k_fs s) q = inl rv /\ user_value kq q rv = Some v
+    | inr c => exists c0, record_answer (k_fs s) q = inr c0 /\ c = user_class q c0
+    end.
+  Proof.
+    intros s q K N P. destruct (record_answer (k_fs s) q) as [rv|c0] eqn:E.
+    - assert (Hnr : (forall p c, q <> QRead p c) -> match spec_answer (k_fs s) q with
+                | inl v => exists rv0, inl rv = @inl pyval errclass rv0 /\ user_value kq q rv0 = Some v
+                | inr c => exists c0, inl rv = @inr pyval errclass c0 /\ c = user_class q c0 end).
+      { intro Hq. destruct (answer_val_nonread _ _ _ Hq E) as [H1 H2]. rewrite H1. exists rv. split; [reflexivity|].
+        eapply uv_nonread; eauto. }
+      destruct q as [p|p|p|p|p td|p|p cm]; try (apply Hnr; intros; discriminate). clear Hnr.
+      destruct (answer_val_read _ _ _ _ E) as [f [Hf [Hv Hs]]]. rewrite Hs. exists rv. split; [reflexivity|].
+      cbn [user_value]. subst rv. rewrite (known s K N P p f (or_introl Hf) cm). reflexivity.
+    - rewrite (answer_err _ _ _ E). exists c0. auto.
+  Qed.
+
+  Lemma Good_nil : forall s tgt v pend, Good s s tgt (Ret v) pend pend (inl v) [].
+  Proof.
+    intros. split; [|split; [|split]].
+    - intros cl _ _. cbn. rewrite !app_nil_r. destruct cl; reflexivity.
+    - intros o [].
+    - intros q [].
+    - intros o [].
+  Qed.
+
+  Lemma TN_Ret : forall v, TN_at (Ret v).
+  Proof.
+    intros v tgt pend subs s r s' out pend' subs' r' out_r pend_r produced S K I L Hc Hr N P E.
+    subst subs'. cbn [core_run] in Hc. assert (E0 : subs = subs ++ produced) by congruence. rewrite <- (app_nil_r subs) in E0 at 1. apply app_inv_head in E0. subst produced. inversion Hc; subst. apply Good_nil.
+  Qed.
+
+  Lemma TN_Raise : forall e, TN_at (Raise e).
+  Proof.
+    intros e tgt pend subs s r s' out pend' subs' r' out_r pend_r produced S K I L Hc Hr N P E.
+    subst subs'. cbn [core_run] in Hc. assert (E0 : subs = subs ++ produced) by congruence. rewrite <- (app_nil_r subs) in E0 at 1. apply app_inv_head in E0. subst produced. inversion Hc; subst.
+    split; [|split; [|split]].
+    - intros cl _ _. cbn. rewrite !app_nil_r. destruct cl; reflexivity.
+    - intros o [].
+    - intros q [].
+    - intros o [].
+  Qed.
+
+  Lemma TN_Ask : forall st q k, (forall o, TN_at (k o)) -> TN_at (Ask st q k).
+  Proof.
+    intros st q k IHk tgt pend subs s r s' out pend' subs' r' out_r pend_r produced S K I L Hc Hr N P E.
+    rewrite core_run_Ask in Hc. rewrite ref_run_Ask in Hr.
+    destruct st.
+    { destruct (IHk _ _ _ _ _ _ _ _ _ _ _ _ _ _ S K I L Hc Hr N P E) as [G1 [G2 [G3 G4]]].
+      split; [|split; [|split]]; auto. }
+    cbv zeta in Hc. rewrite <- (spec_answer_te _ _ q (proj1 S)) in Hr.
+    assert (Hstep := fun P0 => ask_step s q K N P0).
+    destruct (spec_answer (k_fs s) q) as [v|c0] eqn:Esa.
+    - destruct (core_run_ext _ _ _ _ _ _ _ _ _ Hc) as [pk [Epk Xk]].
+      rewrite Epk in E. symmetry in E. apply split_produced in E. subst produced.
+      assert (P0 : PersT s) by (exact (PersT_back _ _ _ _ _ Xk P)).
+      destruct (Hstep P0) as [rv [Erv Euv]].
+      destruct (IHk (inl v) tgt pend _ _ _ _ _ _ _ _ _ _ pk (sim_klog_rlog _ _ _ _ S) (KInv_klog kp old vers clock0 _ _ K)
+                    (RInv_rlog _ _ _ I) (sl_keep _ _ _ L) Hc Hr N P Epk) as [G1 [G2 [G3 G4]]].
+      rewrite Erv in *. cbn [record_of] in *.
+      split; [|split; [|split]].
+      + intros cl Hcl Ht. cbn [tame_list tame andb tree_claims fst] in Ht. rewrite app_nil_r in Ht.
+        cbn [follows]. rewrite query_beq_refl. cbn [negb]. rewrite Euv.
+        rewrite cll_cons. cbn [tree_claims fst snd app]. apply G1; assumption.
+      + intros o [<-|Ho] Hto; [exact Logic.I|]. apply G2; assumption.
+      + exact G3.
+      + intros o [<-|Ho]; [exact Logic.I|]. apply G4; assumption.
+    - destruct (core_run_ext _ _ _ _ _ _ _ _ _ Hc) as [pk [Epk Xk]].
+      rewrite Epk in E. symmetry in E. apply split_produced in E. subst produced.
+      assert (P0 : PersT s) by (exact (PersT_back _ _ _ _ _ Xk P)).
+      destruct (Hstep P0) as [c1 [Erv ->]].
+      destruct (IHk (inr (XOS (user_class q c1))) tgt pend _ _ _ _ _ _ _ _ _ _ pk (sim_klog_rlog _ _ _ _ S) (KInv_klog kp old vers clock0 _ _ K)
+                    (RInv_rlog _ _ _ I) (sl_keep _ _ _ L) Hc Hr N P Epk) as [G1 [G2 [G3 G4]]].
+      rewrite Erv in *. cbn [record_of] in *.
+      split; [|split; [|split]].
+      + intros cl Hcl Ht. cbn [tame_list tame andb tree_claims fst] in Ht. rewrite app_nil_r in Ht.
+        cbn [follows]. rewrite query_beq_refl. cbn [negb].
+        rewrite cll_cons. cbn [tree_claims fst snd app]. apply G1; assumption.
+      + intros o [<-|Ho] Hto; [exact Logic.I|]. apply G2; assumption.
+      + exact G3.
+      + intros o [<-|Ho]; [exact Logic.I|]. apply G4; assumption.
+  Qed.
+
+  Lemma TN_Write : forall c k, TN_at k -> TN_at (Write c k).
+  Proof.
+    intros c k IHk tgt pend subs s r s' out pend' subs' r' out_r pend_r produced S K I L Hc Hr N P E.
+    rewrite core_run_Write in Hc. rewrite ref_run_Write in Hr.
+    destruct tgt as [p|].
+    2:{ destruct (IHk _ _ _ _ _ _ _ _ _ _ _ _ _ S K I L Hc Hr N P E) as [G1 [G2 [G3 G4]]]. split; [|split; [|split]]; auto. }
+    destruct (path_ok p) eqn:Ep.
+    - destruct (IHk _ _ _ _ _ _ _ _ _ _ _ _ _ (sim_tick _ _ S) (KInv_ktick kp old vers clock0 _ K) (RInv_rtick _ _ I) L Hc Hr N P E)
+        as [G1 [G2 [G3 G4]]].
+      split; [|split; [|split]]; auto.
+      intros cl Hcl Ht. cbn [follows]. rewrite Ep. apply G1; assumption.
+    - subst subs'. cbn [core_run] in Hc. assert (E0 : subs = subs ++ produced) by congruence. rewrite <- (app_nil_r subs) in E0 at 1. apply app_inv_head in E0. subst produced. inversion Hc; subst.
+      split; [|split; [|split]].
+      + intros cl _ _. cbn [follows]. rewrite Ep. cbn. rewrite !app_nil_r. destruct cl; reflexivity.
+      + intros o [].
+      + intros q [].
+      + intros o [].
+  Qed.
+
+  (* ---------------------------------------------------------------- *)
+  (* small facts used in the call cases                               *)
+  (* ---------------------------------------------------------------- *)
+  Lemma LE : kp_le kp kq.
+  Proof. apply kpx_le. Qed.
+
+  Lemma need_mono : forall s3 r3 s' r' q, sim s3 r3 -> sim s' r' -> rext r3 r' -> In q (k_need s3) -> In q (k_need s').
+  Proof.
+    intros s3 r3 s' r' q [_ [_ [_ [N3 _]]]] [_ [_ [_ [N' _]]]] [X _] H. rewrite N'. apply X. rewrite <- N3. exact H.
+  Qed.
+
+  Lemma claimed_false_back : forall s s3 cF cS D q, Ext s s3 cF cS D -> mem_path q (k_claimedF s3) = false -> mem_path q (k_claimedF s) = false.
+  Proof.
+    intros s s3 cF cS D q [[eF [A1 _]] _ _ _ _ _ _ _ _ _ _] H. rewrite A1, mem_path_app in H. apply orb_false_iff in H. tauto.
+  Qed.
+
+  (* what a successful replay of the records of a hit has checked, against the claims of a trace *)
+  Lemma hit_free : forall s0 subs1 rp' cl,
+    kreplay_list s0 subs1 (start_replay s0) = Some rp' -> ClOK cl s0 ->
+    (forall x, In x (deepl subs1) -> wfrec x) ->
+    (forall x p', In x (deepl subs1) -> bf_path x = Some p' -> existsb (is_ancestor p') (fst cl) = false) ->
+    forallb (free (fst cl) (snd cl)) subs1 = true.
+  Proof.
+    intros s0 subs1 rp' cl Hkr [C1 C2] Hwf Hanc. apply frees_deep. intros x Hx.
+    pose proof (kreplay_list_checks _ _ _ _ Hkr x Hx) as Hc.
+    destruct x as [q r e|p' c f a k subs r cr ra sf|f a k subs r ra sf]; cbn [free1]; [reflexivity| |].
+    - cbn [start_replay rp_claimedF] in Hc. rewrite (Hanc _ p' Hx eq_refl).
+      destruct (mem_path p' (fst cl)) eqn:E; [rewrite (C1 _ E) in Hc; discriminate|reflexivity].
+    - cbn [start_replay rp_claimedS] in Hc. destruct (Hwf _ Hx) as [S1 [S2 [W1 W2]]].
+      destruct (existsb (py_eq (subbuild_key f a k)) (snd cl)) eqn:E; [|reflexivity].
+      rewrite (C2 f a k S1 S2 W1 W2 E) in Hc. discriminate.
+  Qed.
+
+  (* the same trace for another presentation of the key the call claimed *)
+  Lemma swap_free : forall f sa skw sa2 skw2 subs1,
+    sanitized sa = true -> sanitized skw = true -> pv_wf sa = true -> pv_wf skw = true ->
+    sanitized sa2 = true -> sanitized skw2 = true -> is_equal sa sa2 = true -> is_equal skw skw2 = true ->
+    (forall x, In x (deepl subs1) -> wfrec x) ->
+    forallb (free [] [subbuild_key f sa skw]) subs1 = true ->
+    forallb (free [] [subbuild_key f sa2 skw2]) subs1 = true.
+  Proof.
+    intros f sa skw sa2 skw2 subs1 S1 S2 W1 W2 S3 S4 E1 E2 Hwf H. apply frees_deep. intros x Hx.
+    pose proof (proj1 (frees_deep _ _ _) H x Hx) as Hf.
+    destruct x as [q r e|p' c f' a k subs r cr ra sf|f' a k subs r ra sf]; cbn [free1] in *; [reflexivity|reflexivity|].
+    destruct (Hwf _ Hx) as [A1 [A2 [B1 B2]]]. cbn [existsb] in *. rewrite orb_false_r in *.
+    destruct (py_eq (subbuild_key f' a k) (subbuild_key f sa2 skw2)) eqn:E; [|reflexivity].
+    rewrite (key_transfer f' a k f sa skw sa2 skw2 A1 A2 S1 S2 S3 S4 B1 B2 W1 W2 E1 E2 E) in Hf. discriminate.
+  Qed.
+
+  Lemma ClOK_swap : forall s f sa skw sa2 skw2 ks,
+    sanitized sa = true -> sanitized skw = true -> pv_wf sa = true -> pv_wf skw = true ->
+    sanitized sa2 = true -> sanitized skw2 = true -> is_equal sa sa2 = true -> is_equal skw skw2 = true ->
+    k_claimedS s = subbuild_key f sa skw :: ks ->
+    ClOK ([], [subbuild_key f sa2 skw2]) s.
+  Proof.
+    intros s f sa skw sa2 skw2 ks S1 S2 W1 W2 S3 S4 E1 E2 Hk. split; cbn [fst snd].
+    - intros q Hq. discriminate.
+    - intros f' a k A1 A2 B1 B2 H. cbn [existsb] in H. rewrite orb_false_r in H. rewrite Hk. cbn [existsb].
+      rewrite (key_transfer f' a k f sa skw sa2 skw2 A1 A2 S1 S2 S3 S4 B1 B2 W1 W2 E1 E2 H). reflexivity.
+  Qed.
+
+  Lemma sb_end_sub_rec : forall f sa skw bsubs res r ra,
+    sub_rec f sa skw bsubs res = OSubbuild f sa skw bsubs r ra false -> sb_end r ra res = Some (sub_out res).
+  Proof.
+    intros f sa skw bsubs res r ra H. unfold sub_rec in H. unfold sb_end, sub_out. destruct res as [v|e].
+    - destruct (sanitize v) as [sv|]; inversion H; subst; [|reflexivity]. cbn. rewrite pyval_same_refl. reflexivity.
+    - inversion H; subst. reflexivity.
+  Qed.
+
+  (* ---------------------------------------------------------------- *)
+  (* subbuild                                                         *)
+  (* ---------------------------------------------------------------- *)
+  Lemma TN_Subbuild : forall st f a kw fn k,
+    (forall a' k', fn a' k' = ft_sub F f a' k') ->
+    (forall a' k', Obeys F (ft_sub F f a' k')) ->
+    (forall a' k', pv_wf a' = true -> pv_wf k' = true -> TN_at (ft_sub F f a' k')) ->
+    (forall o, Obeys F (k o)) -> (forall o, TN_at (k o)) ->
+    pv_wf a = true -> pv_wf kw = true ->
+    TN_at (Subbuild st f a kw fn k).
+  Proof.
+    intros st f a kw fn k Hfn Hob IHfn Hk IHk Wa Wkw tgt pend subs s r s' out pend' subs' r' out_r pend_r produced S K I L Hc Hr N P E.
+    rewrite core_run_Subbuild in Hc. rewrite ref_run_Subbuild in Hr.
+    destruct st.
+    { destruct (IHk _ _ _ _ _ _ _ _ _ _ _ _ _ _ S K I L Hc Hr N P E) as [G1 [G2 [G3 G4]]]. split; [|split; [|split]]; auto. }
+    destruct (sanitize a) as [sa|] eqn:Esa.
+    2:{ destruct (IHk _ _ _ _ _ _ _ _ _ _ _ _ _ _ S K I L Hc Hr N P E) as [G1 [G2 [G3 G4]]]. split; [|split; [|split]]; auto.
+        intros cl Hcl Ht. cbn [follows]. rewrite Esa. apply G1; assumption. }
+    destruct (sanitize kw) as [skw|] eqn:Eskw.
+    2:{ destruct (IHk _ _ _ _ _ _ _ _ _ _ _ _ _ _ S K I L Hc Hr N P E) as [G1 [G2 [G3 G4]]]. split; [|split; [|split]]; auto.
+        intros cl Hcl Ht. cbn [follows]. rewrite Esa, Eskw. apply G1; assumption. }
+    cbv zeta in Hc. rewrite (proj1 (proj2 (proj2 S)) (subbuild_key f sa skw)) in Hc.
+    pose proof (sanitize_sanitized _ _ Esa) as Ssa. pose proof (sanitize_sanitized _ _ Eskw) as Sskw.
+    pose proof (sanitize_wf _ _ Wa Esa) as Wsa. pose proof (sanitize_wf _ _ Wkw Eskw) as Wskw.
+    set (key := subbuild_key f sa skw) in *.
+    assert (Hfol : forall cl bs rt rs rest,
+              existsb (py_eq key) (snd cl) = false ->
+              follows kq tgt (Subbuild false f a kw fn k) (OSubbuild f sa skw bs rt rs false :: rest) pend cl =
+              match follows kq None (fn sa skw) bs None (fst cl, snd cl ++ [key]) with
+              | Some (out_n, _, [], cl2) =>
+                  match sb_end rt rs out_n with
+                  | Some o => follows kq tgt (k o) rest pend cl2
+                  | None => None
+                  end
+              | _ => None
+              end).
+    { intros cl bs rt rs rest Hk0. cbn [follows]. rewrite Esa, Eskw.
+      rewrite String.eqb_refl, !pyval_same_refl. cbn [negb andb]. fold key. rewrite Hk0. reflexivity. }
+    destruct (existsb (py_eq key) (r_claimedS r)) eqn:Edup.
+    - (* duplicate: a setup failure *)
+      destruct (core_run_ext _ _ _ _ _ _ _ _ _ Hc) as [pk [Epk Xk]].
+      rewrite Epk in E. symmetry in E. apply split_produced in E. subst produced.
+      destruct (IHk _ _ _ _ _ _ _ _ _ _ _ _ _ _ S K I L Hc Hr N P Epk) as [G1 [G2 [G3 G4]]].
+      split; [|split; [|split]].
+      + intros cl Hcl Ht. cbn [tame_list] in Ht. rewrite tame_SB in Ht. discriminate.
+      + intros o [<-|Ho] Hto; [rewrite tame_SB in Hto; discriminate|]. apply G2; assumption.
+      + exact G3.
+      + intros o [<-|Ho]; [cbn; auto|]. apply G4; assumption.
+    - assert (Hdup_k : forall cl, ClOK cl s -> existsb (py_eq key) (snd cl) = false).
+      { intros cl [_ C2]. destruct (existsb (py_eq key) (snd cl)) eqn:Ex; [|reflexivity].
+        pose proof (C2 f sa skw Ssa Sskw Wsa Wskw Ex) as Hx. fold key in Hx.
+        rewrite (proj1 (proj2 (proj2 S)) key) in Hx. congruence. }
+      destruct (core_subhit s f key) as [[[subs1 ret1] rp1]|] eqn:Ehit.
+      + (* served from the cache *)
+        destruct (hitS_more s r tgt f sa skw subs1 ret1 rp1 fn S K I Ssa Sskw Ehit (Hfn sa skw))
+          as (r2 & res & pd & a' & k' & Er2 & Hout & S3 & K3 & I3 & X3 & Hdf & Ea & Ek & Efo & Ebe & Ekr & Hneed).
+        rewrite Er2, Hout in Hr.
+        set (o := OSubbuild f sa skw subs1 ret1 false false) in *.
+        assert (L3 : sublog (k_log (adopt s rp1 o)) (r_log r2)).
+        { destruct X3 as [_ [_ [_ [ex Hex]]]]. rewrite Hex. apply sublog_app_r. exact L. }
+        pose proof (Ext_hitS s f sa skw subs1 ret1 rp1 Ehit) as Xh. cbv zeta in Xh. fold o in Xh.
+        pose proof (NI_ext _ _ _ _ _ N Xh) as N3.
+        destruct (core_run_ext _ _ _ _ _ _ _ _ _ Hc) as [pk [Epk Xk]].
+        rewrite Epk in E. symmetry in E. apply split_produced in E. subst produced.
+        destruct (IHk _ _ _ _ _ _ _ _ _ _ _ _ _ _ S3 K3 I3 L3 Hc Hr N3 P Epk) as [G1 [G2 [G3 G4]]].
+        destruct (T1 kp F old vers clock0 HR HW HF HN _ (Hk (inl ret1)) _ _ _ _ _ _ _ _ _ _ _ _ S3 K3 I3 L3 Hc Hr) as [_ [_ [S' _]]].
+        destruct (ref_run_inv _ _ _ _ _ _ _ I3 Hr) as [_ X'].
+        apply dfaith_SB in Hdf. destruct Hdf as [_ [_ Hdl]].
+        assert (Hwf1 : forall x, In x (deepl subs1) -> wfrec x).
+        { intros x Hx. eapply dfaith_wfrec. eapply dfaith_list_deep; eauto. }
+        pose proof (follows_mono kp kq LE _ _ _ _ _ _ Efo) as Efq.
+        pose proof (follows_free _ _ _ _ _ _ _ _ _ Efo) as Ffree. cbn [fst snd] in Ffree.
+        split; [|split; [|split]].
+        * intros cl Hcl Ht. cbn [tame_list] in Ht. apply andb_true_iff in Ht. destruct Ht as [Hto Htk].
+          unfold o at 1. rewrite (Hfol cl _ _ _ pk (Hdup_k cl Hcl)).
+          assert (Hfr : forallb (free (fst cl) (snd cl ++ [key])) subs1 = true).
+          { rewrite <- (app_nil_r (fst cl)). apply frees_union; [|exact Ffree].
+            apply (hit_free s subs1 rp1 cl Ekr Hcl Hwf1).
+            intros x p' Hx Hp. apply (tame_anc o (fst cl) Hto x p'); [right; exact Hx|exact Hp]. }
+          pose proof (follows_reclaim kq _ _ _ _ _ _ _ _ (fst cl, snd cl ++ [key]) Efq Hfr) as Hn. cbn [fst snd] in Hn.
+          rewrite Hn, Ebe.
+          assert (Hcl3 : ClOK (fst cl ++ fst (cll subs1), (snd cl ++ [key]) ++ snd (cll subs1)) (adopt s rp1 o)).
+          { pose proof (ClOK_ext _ _ _ _ _ _ Hcl Xh) as Hx. unfold o in Hx. rewrite tree_claims_SB in Hx. cbn [fst snd] in Hx.
+            rewrite <- app_assoc. exact Hx. }
+          unfold o in Htk. rewrite tree_claims_SB in Htk. cbn [fst] in Htk.
+          rewrite (G1 _ Hcl3 Htk). cbn [fst snd]. rewrite cll_cons. unfold o. rewrite tree_claims_SB. cbn [fst snd].
+          rewrite <- !app_assoc. reflexivity.
+        * intros o0 Ho0 Hto. cbn [deepl flat_map] in Ho0. apply in_app_or in Ho0. destruct Ho0 as [Ho0|Ho0]; [|apply G2; assumption].
+          assert (Hdo : dfaith kq F o).
+          { apply dfaith_SB. split; [auto|]. split; [|eapply dfaith_list_mono; [apply LE|exact Hdl]].
+            right. right. intros sa2 skw2 S1 S2 E1 E2. cbn [faithful_sub_at].
+            rewrite <- (HRS f sa sa2 skw skw2 E1 E2), <- Hfn.
+            pose proof (swap_free f sa skw sa2 skw2 subs1 Ssa Sskw Wsa Wskw S1 S2 E1 E2 Hwf1 Ffree) as Hfr.
+            pose proof (follows_reclaim kq _ _ _ _ _ _ _ _ ([], [subbuild_key f sa2 skw2]) Efq Hfr) as Hn. cbn [fst snd] in Hn.
+            rewrite Hn, Ebe. reflexivity. }
+          eapply dfaith_deep; eauto.
+        * intros q Hq. cbn [flat_map] in Hq. apply in_app_or in Hq. destruct Hq as [Hq|Hq].
+          -- cbn [tree_outputs] in Hq. split.
+             ++ eapply need_mono; [exact S3|exact S'|exact X'|]. rewrite (proj1 (proj2 (proj2 (proj2 S3)))). apply Hneed. exact Hq.
+             ++ destruct (outputs_deepl _ _ Hq) as [x [Hx Hp]]. pose proof (kreplay_list_checks _ _ _ _ Ekr x Hx) as Hc0.
+                destruct x; try discriminate. cbn in Hp. inversion Hp; subst. exact Hc0.
+          -- destruct (G3 q Hq) as [A B]. split; [exact A|]. eapply claimed_false_back; eauto.
+        * intros o0 Ho0. cbn [deepl flat_map] in Ho0. apply in_app_or in Ho0. destruct Ho0 as [Ho0|Ho0]; [|apply G4; assumption].
+          cbn [deep] in Ho0. destruct Ho0 as [<-|Ho0]; [cbn; auto|]. apply Hwf1. exact Ho0.
+      + (* the function runs *)
+        destruct (core_run (fn sa skw) None None [] (core_substart s f sa skw)) as [s2 [[res pd] bsubs]] eqn:Ec2.
+        destruct (ref_run (fn sa skw) None None (ref_substart r f sa skw)) as [r2 [res_r pd_r]] eqn:Er2.
+        destruct (RInv_substart tgt r f sa skw I) as [I1 X1].
+        rewrite Hfn in Ec2, Er2.
+        assert (S1 : sim (core_substart s f sa skw) (ref_substart r f sa skw)).
+        { destruct S as [Tt [CF [CS [Nn [Md Ecf]]]]]. repeat split; try assumption.
+          intro k0. cbn. rewrite (CS k0). reflexivity. }
+        assert (K1 : KI (core_substart s f sa skw)) by exact K.
+        assert (L1 : sublog (k_log (core_substart s f sa skw)) (r_log (ref_substart r f sa skw)))
+          by (cbn; apply sl_keep; exact L).
+        destruct (T1 kp F old vers clock0 HR HW HF HN _ (Hob sa skw) _ _ _ _ _ _ _ _ _ _ _ _ S1 K1 I1 L1 Ec2 Er2)
+          as [E1 [E2 [S2 [K2 [L2 _]]]]].
+        subst res_r.
+        destruct (ref_run_inv _ _ _ _ _ _ _ I1 Er2) as [I2 X2].
+        assert (I2' : RInv' tgt r2).
+        { eapply RInv_target; [exact I2|]. intros q Hq. destruct X2 as [X2 _]. destruct X1 as [X1' _].
+          apply X2, X1'. destruct I as [[_ [_ Tg]] _]. apply Tg. exact Hq. }
+        set (o := sub_rec f sa skw bsubs res) in *.
+        assert (S3 : sim (core_subreg s2 key o) r2) by exact S2.
+        assert (K3 : KI (core_subreg s2 key o)) by exact K2.
+        destruct (T1 kp F old vers clock0 HR HW HF HN _ (Hk (sub_out res)) _ _ _ _ _ _ _ _ _ _ _ _ S3 K3 I2' L2 Hc Hr) as [_ [_ [S' _]]].
+        destruct (ref_run_inv _ _ _ _ _ _ _ I2' Hr) as [_ X'].
+        destruct (core_run_ext _ _ _ _ _ _ _ _ _ Ec2) as [pn [Epn Xn]]. cbn [app] in Epn. subst pn.
+        destruct (core_run_ext _ _ _ _ _ _ _ _ _ Hc) as [pk [Epk Xk]].
+        rewrite Epk in E. symmetry in E. apply split_produced in E. subst produced.
+        pose proof (Ext_substart s f sa skw (deepl bsubs)) as Xs.
+        assert (P3 : PersT (core_subreg s2 key o)) by (exact (PersT_back _ _ _ _ _ Xk P)).
+        assert (P2 : PersT s2) by exact P3.
+        pose proof (NI_ext _ _ _ _ _ N Xs) as N1.
+        pose proof (NI_ext _ _ _ _ _ N1 Xn) as N2.
+        assert (N3 : NI (core_subreg s2 key o)) by exact N2.
+        pose proof (IHfn sa skw Wsa Wskw _ _ _ _ _ _ _ _ _ _ _ _ bsubs S1 K1 I1 L1 Ec2 Er2 N1 P2 eq_refl) as [F1 [F2 [F3 F4]]].
+        destruct (IHk _ _ _ _ _ _ _ _ _ _ _ _ _ _ S3 K3 I2' L2 Hc Hr N3 P Epk) as [G1 [G2 [G3 G4]]].
+        destruct (sub_rec_shape f sa skw bsubs res) as (rr & ra & Hrec). fold o in Hrec.
+        pose proof (sb_end_sub_rec _ _ _ _ _ _ _ Hrec) as Hsb.
+        assert (Xall : Ext s (core_subreg s2 key o) (fst (cll bsubs)) (key :: snd (cll bsubs)) (o :: deepl bsubs)).
+        { apply Ext_subreg; [|left; reflexivity|rewrite Hrec; repeat eexists|left; reflexivity].
+          change (fst (cll bsubs)) with ([] ++ fst (cll bsubs)). change (key :: snd (cll bsubs)) with ([key] ++ snd (cll bsubs)).
+          eapply Ext_trans; (eapply Ext_D; [|eassumption]); intros x Hx; right; exact Hx. }
+        split; [|split; [|split]].
+        * intros cl Hcl Ht. cbn [tame_list] in Ht. apply andb_true_iff in Ht. destruct Ht as [Hto Htk].
+          rewrite Hrec in Hto, Htk. rewrite tame_SB in Hto. cbn [negb andb] in Hto. rewrite tree_claims_SB in Htk. cbn [fst] in Htk.
+          rewrite Hrec at 1. rewrite (Hfol cl _ _ _ pk (Hdup_k cl Hcl)).
+          assert (Hcl1 : ClOK (fst cl, snd cl ++ [key]) (core_substart s f sa skw)).
+          { pose proof (ClOK_ext _ _ _ _ _ _ Hcl Xs) as Hx. cbn [fst snd] in Hx. rewrite app_nil_r in Hx. exact Hx. }
+          rewrite (Hfn sa skw). rewrite (F1 _ Hcl1 Hto). cbn [fst snd]. rewrite Hsb.
+          assert (Hcl3 : ClOK (fst cl ++ fst (cll bsubs), (snd cl ++ [key]) ++ snd (cll bsubs)) (core_subreg s2 key o)).
+          { pose proof (ClOK_ext _ _ _ _ _ _ Hcl Xall) as Hx. cbn [fst snd] in Hx. rewrite <- app_assoc. exact Hx. }
+          rewrite (G1 _ Hcl3 Htk). cbn [fst snd]. rewrite cll_cons, Hrec, tree_claims_SB. cbn [fst snd].
+          rewrite <- !app_assoc. reflexivity.
+        * intros o0 Ho0 Hto. cbn [deepl flat_map] in Ho0. apply in_app_or in Ho0. destruct Ho0 as [Ho0|Ho0]; [|apply G2; assumption].
+          rewrite Hrec in Ho0. cbn [deep] in Ho0. destruct Ho0 as [<-|Ho0]; [|apply F2; assumption].
+          rewrite tame_SB in Hto. cbn [negb andb] in Hto.
+          apply dfaith_SB. split; [auto|]. split.
+          -- destruct ra; [left; reflexivity|right; right]. intros sa2 skw2 Sa2 Sk2 Ea2 Ek2. cbn [faithful_sub_at].
+             rewrite <- (HRS f sa sa2 skw skw2 Ea2 Ek2).
+             assert (Hcl1 : ClOK ([], [subbuild_key f sa2 skw2]) (core_substart s f sa skw)).
+             { eapply (ClOK_swap _ f sa skw sa2 skw2); eauto. reflexivity. }
+             rewrite (F1 _ Hcl1 Hto). rewrite Hsb. reflexivity.
+          -- apply dfaith_list_of. intros x Hx. apply F2; [apply deepl_top; exact Hx|]. eapply tame_list_top; eauto.
+        * intros q Hq. cbn [flat_map] in Hq. apply in_app_or in Hq. destruct Hq as [Hq|Hq].
+          -- rewrite Hrec in Hq. cbn [tree_outputs] in Hq. destruct (F3 q Hq) as [A B]. split.
+             ++ eapply need_mono; [exact S3|exact S'|exact X'|exact A].
+             ++ eapply claimed_false_back; [exact Xs|exact B].
+          -- destruct (G3 q Hq) as [A B]. split; [exact A|]. eapply claimed_false_back; [exact Xall|exact B].
+        * intros o0 Ho0. cbn [deepl flat_map] in Ho0. apply in_app_or in Ho0. destruct Ho0 as [Ho0|Ho0]; [|apply G4; assumption].
+          rewrite Hrec in Ho0. cbn [deep] in Ho0. destruct Ho0 as [<-|Ho0]; [cbn; auto|]. apply F4. exact Ho0.
+  Qed.
+
+  (* ---------------------------------------------------------------- *)
+  (* the end of a build_file call                                     *)
+  (* ---------------------------------------------------------------- *)
+  Lemma bf_end_hit : forall p c c' subs1 ret1 cmpres' res pend2 clA clB fh,
+    bf_end kp p c' subs1 ret1 cmpres' false res pend2 clA = Some (inl ret1) ->
+    agrees kp p fh -> is_equal cmpres' (cmp_of c' fh) = true ->
+    kq p c (cmp_of c fh) = Some (f_bytes fh) ->
+    (existsb (is_ancestor p) (fst clA) = false -> existsb (is_ancestor p) (fst clB) = false) ->
+    bf_end kq p c subs1 ret1 (cmp_of c fh) false res pend2 clB = Some (inl ret1).
+  Proof.
+    intros p c c' subs1 ret1 cmpres' res pend2 clA clB fh H Ha Hc Hk Hcl. unfold bf_end in *.
+    destruct res as [v|e]; [|discriminate]. destruct (sanitize v) as [sv|]; [|discriminate].
+    destruct pend2 as [b|]; [|discriminate].
+    destruct (existsb (is_ancestor p) (flat_map tree_outputs subs1)); [discriminate|].
+    destruct (existsb (is_ancestor p) (fst clA)); [discriminate|]. rewrite (Hcl eq_refl).
+    cbn [negb andb] in *. destruct (pyval_same ret1 sv); [|discriminate]. cbn [andb] in *.
+    destruct (kp p c' cmpres') as [b'|] eqn:E; [|discriminate].
+    destruct (String.eqb b b') eqn:Eb; [|discriminate]. apply String.eqb_eq in Eb. subst b'.
+    rewrite Hk. rewrite (Ha c' cmpres' b E (or_introl Hc)). rewrite String.eqb_refl. exact H.
+  Qed.
+
+  Lemma finish_keeps : forall s2 p c f sa skw bsubs res pend2 s3 out o,
+    core_finish s2 p c f sa skw bsubs res pend2 = (s3, out, o) ->
+    k_claimedF s3 = k_claimedF s2 /\
+    forall q g, q <> p -> lookup (k_fs s2) q = Some (NFile g) -> lookup (k_fs s3) q = Some (NFile g).
+  Proof.
+    intros s2 p c f sa skw bsubs res pend2 s3 out o H. unfold core_finish in H.
+    assert (Fl : forall e o', (core_prune s2 p o', @inr pyval exn e, o') = (s3, out, o) ->
+              k_claimedF s3 = k_claimedF s2 /\
+              forall q g, q <> p -> lookup (k_fs s2) q = Some (NFile g) -> lookup (k_fs s3) q = Some (NFile g)).
+    { intros e o' E. inversion E; subst. split; [reflexivity|]. intros q g _ Hl.
+      apply (prune_fs_file (k_fs s2) (k_need s2) (k_made s2) p q g). exact Hl. }
+    destruct res as [v|e]; [|eapply Fl; eauto].
+    destruct (sanitize v) as [sv|]; [|eapply Fl; eauto].
+    destruct pend2 as [b|]; [|eapply Fl; eauto].
+    destruct (write_file (k_fs s2) p b None (k_clock s2) (k_nextid s2)) as [fs3|e1] eqn:Ew; [|eapply Fl; eauto].
+    inversion H; subst. split; [reflexivity|]. intros q g Hq Hl. cbn.
+    destruct (write_file_ok _ _ _ _ _ _ _ Ew) as [_ [_ [_ Hoth]]]. rewrite Hoth by exact Hq. exact Hl.
+  Qed.
+
+  Lemma own_end : forall s2 r2 p c f sa skw bsubs res pend2 s3 out3 o3 rr cr ra clE,
+    core_finish s2 p c f sa skw bsubs res pend2 = (s3, out3, o3) ->
+    o3 = OBuildFile p c f sa skw bsubs rr cr ra false ->
+    sim s2 r2 -> RInv' (Some p) r2 -> KI s3 -> NI s3 -> PersT s3 -> mem_path p (k_claimedF s3) = true ->
+    (pend2 = None \/ path_ok p = true) ->
+    (forall q, In q (flat_map tree_outputs bsubs) -> In q (k_need s2)) ->
+    (isdir (k_fs s2) p = true -> existsb (is_ancestor p) (fst (cll bsubs)) = true) ->
+    negb (existsb (is_ancestor p) (fst (cll bsubs))) || existsb (is_ancestor p) (flat_map tree_outputs bsubs) = true ->
+    existsb (is_ancestor p) (fst clE) = existsb (is_ancestor p) (fst (cll bsubs)) ->
+    bf_end kq p c bsubs rr cr ra res pend2 clE = Some out3.
+  Proof.
+    intros s2 r2 p c f sa skw bsubs res pend2 s3 out3 o3 rr cr ra clE Ef Ho3 S2 I2 K3 N3 P3 Hcl Hok Hout Hdir Hexit HclE.
+    unfold core_finish in Ef. unfold bf_end.
+    destruct res as [v|e].
+    2:{ inversion Ef; subst s3 out3 o3. inversion H2; subst. reflexivity. }
+    destruct (sanitize v) as [sv|].
+    2:{ inversion Ef; subst s3 out3 o3. inversion H2; subst. reflexivity. }
+    destruct pend2 as [b|].
+    2:{ inversion Ef; subst s3 out3 o3. inversion H2; subst. reflexivity. }
+    destruct Hok as [Hok|Hok]; [discriminate|].
+    destruct I2 as [[W2 [Nd Tg]] C2]. pose proof (Tg p eq_refl) as Hp. destruct (Nd p Hp) as [Hne Hpar].
+    destruct S2 as [T2 [_ [_ [Nn _]]]].
+    destruct (existsb (is_ancestor p) (flat_map tree_outputs bsubs)) eqn:Eout.
+    - (* an output below p: p is a directory, the write fails *)
+      apply existsb_exists in Eout. destruct Eout as [q [Hq Ha]].
+      pose proof (Hout q Hq) as Hqn. rewrite Nn in Hqn. destruct (Nd q Hqn) as [Hqne Hqpar].
+      assert (Hd : isdir (k_fs s2) p = true).
+      { rewrite (te_isdir _ _ p T2). unfold isdir. destruct q as [|x d]; [congruence|]. cbn in Hqpar.
+        apply is_ancestor_parent in Ha. destruct Ha as [->|Ha]; [rewrite Hqpar; reflexivity|].
+        rewrite (wf_ancestor _ W2 _ _ _ Hqpar Ha). reflexivity. }
+      rewrite (write_file_isdir _ _ _ _ _ _ Hd) in Ef. inversion Ef; subst s3 out3 o3. inversion H2; subst. reflexivity.
+    - rewrite orb_false_r in Hexit. apply negb_true_iff in Hexit. rewrite HclE, Hexit.
+      assert (Hnd : isdir (k_fs s2) p = false).
+      { destruct (isdir (k_fs s2) p) eqn:Ed; [|reflexivity]. rewrite (Hdir eq_refl) in Hexit. discriminate. }
+      assert (Hpark : lookup (k_fs s2) (dirname p) = Some NDir) by (eapply te_dir; [apply te_sym; exact T2|exact Hpar]).
+      destruct (write_file_succeeds (k_fs s2) p b None (k_clock s2) (k_nextid s2) Hne Hok Hpark Hnd) as [fs3 Hw].
+      rewrite Hw in Ef. inversion Ef; subst s3 out3 o3. inversion H2; subst rr cr ra. clear H2.
+      destruct (write_file_ok _ _ _ _ _ _ _ Hw) as [_ [_ [[f3 [Hf3 [Hb3 _]]] _]]].
+      rewrite Hf3. cbn [negb andb]. rewrite pyval_same_refl. cbn [andb].
+      rewrite (known _ K3 N3 P3 p f3 (or_introl Hf3) c). rewrite Hb3, String.eqb_refl. reflexivity.
+  Qed.
+
+  (* ---------------------------------------------------------------- *)
+  (* build_file                                                       *)
+  (* ---------------------------------------------------------------- *)
+  Lemma TN_BuildFile : forall st p c f a kw fn k,
+    (forall p' a' k', fn p' a' k' = ft_file F f p' a' k') ->
+    (forall p' a' k', Obeys F (ft_file F f p' a' k')) ->
+    (forall p' a' k', pv_wf a' = true -> pv_wf k' = true -> TN_at (ft_file F f p' a' k')) ->
+    (forall o, Obeys F (k o)) -> (forall o, TN_at (k o)) ->
+    pv_wf a = true -> pv_wf kw = true ->
+    TN_at (BuildFile st p c f a kw fn k).
+  Proof.
+    intros st p c f a kw fn k Hfn Hob IHfn Hk IHk Wa Wkw tgt pend subs s r s' out pend' subs' r' out_r pend_r produced S K I L Hc Hr N P E.
+    rewrite core_run_BuildFile in Hc. rewrite ref_run_BuildFile in Hr.
+    destruct st.
+    { destruct (IHk _ _ _ _ _ _ _ _ _ _ _ _ _ _ S K I L Hc Hr N P E) as [G1 [G2 [G3 G4]]]. split; [|split; [|split]]; auto. }
+    destruct (sanitize a) as [sa|] eqn:Esa.
+    2:{ destruct (IHk _ _ _ _ _ _ _ _ _ _ _ _ _ _ S K I L Hc Hr N P E) as [G1 [G2 [G3 G4]]]. split; [|split; [|split]]; auto.
+        intros cl Hcl Ht. cbn [follows]. rewrite Esa. apply G1; assumption. }
+    destruct (sanitize kw) as [skw|] eqn:Eskw.
+    2:{ destruct (IHk _ _ _ _ _ _ _ _ _ _ _ _ _ _ S K I L Hc Hr N P E) as [G1 [G2 [G3 G4]]]. split; [|split; [|split]]; auto.
+        intros cl Hcl Ht. cbn [follows]. rewrite Esa, Eskw. apply G1; assumption. }
+    cbv zeta in Hc.
+    pose proof (sanitize_wf _ _ Wa Esa) as Wsa. pose proof (sanitize_wf _ _ Wkw Eskw) as Wskw.
+    assert (Hfol : forall cl c0 f0 a0 k0 bs rt cr rs rest,
+              mem_path p (fst cl) = false -> existsb (is_ancestor p) (fst cl) = false ->
+              follows kq tgt (BuildFile false p c f a kw fn k) (OBuildFile p c0 f0 a0 k0 bs rt cr rs false :: rest) pend cl =
+              match follows kq (Some p) (fn p sa skw) bs None (fst cl ++ [p], snd cl) with
+              | Some (out_n, bytes_n, [], cl2) =>
+                  match bf_end kq p c0 bs rt cr rs out_n bytes_n cl2 with
+                  | Some o => follows kq tgt (k o) rest pend cl2
+                  | None => None
+                  end
+              | _ => None
+              end).
+    { intros cl c0 f0 a0 k0 bs rt cr rs rest H1 H2. cbn [follows]. rewrite Esa, Eskw, path_eqb_refl. cbn [negb].
+      rewrite H1, H2. cbn [orb]. reflexivity. }
+    (* a setup failure: the record is not tame *)
+    assert (Hsf : forall e,
+              core_run (k (inr e)) tgt pend (subs ++ [OBuildFile p c f sa skw [] PNone PNone true true]) s = (s', (out, pend', subs')) ->
+              ref_run (k (inr e)) tgt pend r = (r', (out_r, pend_r)) ->
+              Good s s' tgt (BuildFile false p c f a kw fn k) pend pend' out produced).
+    { intros e Hc' Hr'.
+      destruct (core_run_ext _ _ _ _ _ _ _ _ _ Hc') as [pk [Epk Xk]].
+      rewrite Epk in E. symmetry in E. apply split_produced in E. subst produced.
+      destruct (IHk _ _ _ _ _ _ _ _ _ _ _ _ _ _ S K I L Hc' Hr' N P Epk) as [G1 [G2 [G3 G4]]].
+      split; [|split; [|split]].
+      + intros cl Hcl Ht. cbn [tame_list] in Ht. rewrite tame_BF in Ht. discriminate.
+      + intros o [<-|Ho] Hto; [rewrite tame_BF in Hto; discriminate|]. apply G2; assumption.
+      + exact G3.
+      + intros o [<-|Ho]; [exact Logic.I|]. apply G4; assumption. }
+    pose proof (claim_check_sim s r p S) as Ecs. rewrite Ecs in Hc.
+    destruct (claim_check (r_claimedF r) (r_cachefile r) p) as [ec|] eqn:Ecc; [apply (Hsf ec); assumption|].
+    pose proof (setup_sim s r p S) as R.
+    destruct (setup_fs (k_fs s) (k_cachefile s) p) as [[fs1 dirs]|e1] eqn:Esk;
+      destruct (setup_fs (r_fs r) (r_cachefile r) p) as [[fs1r dirs']|e2] eqn:Esr; simpl in R; try contradiction;
+      [|subst e2; apply (Hsf e1); assumption].
+    destruct R as [T1' <-]. clear Hsf.
+    assert (Wk : fs_wf (k_fs s)) by (eapply te_wf; [apply te_sym; exact (proj1 S)|exact (RInv_wf _ _ I)]).
+    destruct (claim_check_none _ _ _ Ecc) as [Hpc _].
+    assert (Hpk : mem_path p (k_claimedF s) = false) by (rewrite (proj1 (proj2 S) p); exact Hpc).
+    assert (Hchk : forall cl, ClOK cl s -> mem_path p (fst cl) = false).
+    { intros cl [C1 _]. destruct (mem_path p (fst cl)) eqn:Ex; [|reflexivity]. rewrite (C1 _ Ex) in Hpk. discriminate. }
+    destruct (setup_fs_ok _ _ _ _ _ Wk Esk) as [Hne [Hnotdir _]].
+    destruct (core_hit s (core_s0 s p fs1 dirs) p f sa skw) as [[[[fh subs1] ret1] rp1]|] eqn:Ehit.
+    - (* served from the cache *)
+      destruct (hitF_more s r tgt p c f sa skw fs1 fs1r dirs fh subs1 ret1 rp1 fn S K I Ecc Esk Esr T1' Ehit (Hfn p sa skw))
+        as (r2 & res & pend2 & r3 & c' & a' & k' & cmpres' & Er2 & Ef & S3 & K3 & I3 & X3 & Hdf & Efo & Ebe & Eph & Ecmp & Ekr & Hneed).
+      rewrite Er2, Ef in Hr.
+      set (s0 := core_s0 s p fs1 dirs) in *.
+      set (o := OBuildFile p c f sa skw subs1 ret1 (cmp_of c fh) false false) in *.
+      assert (L3 : sublog (k_log (core_put (adopt s0 rp1 o) p fh)) (r_log r3)).
+      { destruct X3 as [_ [_ [_ [ex Hex]]]]. rewrite Hex. apply sublog_app_r. exact L. }
+      pose proof (Ext_hitF s p fs1 dirs c f sa skw fh subs1 ret1 rp1 Ecs Esk Ehit) as Xh. cbv zeta in Xh. fold s0 o in Xh.
+      pose proof (NI_ext _ _ _ _ _ N Xh) as N3.
+      destruct (core_run_ext _ _ _ _ _ _ _ _ _ Hc) as [pk [Epk Xk]].
+      rewrite Epk in E. symmetry in E. apply split_produced in E. subst produced.
+      destruct (IHk _ _ _ _ _ _ _ _ _ _ _ _ _ _ S3 K3 I3 L3 Hc Hr N3 P Epk) as [G1 [G2 [G3 G4]]].
+      destruct (T1 kp F old vers clock0 HR HW HF HN _ (Hk (inl ret1)) _ _ _ _ _ _ _ _ _ _ _ _ S3 K3 I3 L3 Hc Hr) as [_ [_ [S' _]]].
+      destruct (ref_run_inv _ _ _ _ _ _ _ I3 Hr) as [_ X'].
+      apply dfaith_BF in Hdf. destruct Hdf as [_ Hdl].
+      assert (Hwf1 : forall x, In x (deepl subs1) -> wfrec x).
+      { intros x Hx. eapply dfaith_wfrec. eapply dfaith_list_deep; eauto. }
+      pose proof (follows_mono kp kq LE _ _ _ _ _ _ Efo) as Efq.
+      pose proof (follows_free _ _ _ _ _ _ _ _ _ Efo) as Ffree. cbn [fst snd] in Ffree.
+      assert (P3 : PersT (core_put (adopt s0 rp1 o) p fh)) by (exact (PersT_back _ _ _ _ _ Xk P)).
+      assert (Hkq : kq p c (cmp_of c fh) = Some (f_bytes fh)).
+      { apply (known _ K3 N3 P3 p fh). left. cbn. apply lookup_upd_eq. exact Hne. }
+      assert (Hag : agrees kp p fh).
+      { pose proof (KInv_s0 kp old vers clock0 s p fs1 dirs K Wk Esk) as [_ [_ [K0 _]]]. apply K0. apply phys_cases. exact Eph. }
+      split; [|split; [|split]].
+      + intros cl Hcl Ht. cbn [tame_list] in Ht. apply andb_true_iff in Ht. destruct Ht as [Hto Htk].
+        pose proof Hto as Hto'. unfold o in Hto'. rewrite tame_BF in Hto'.
+        apply andb_true_iff in Hto'. destruct Hto' as [Hto' _]. apply andb_true_iff in Hto'. destruct Hto' as [Hto' _].
+        apply andb_true_iff in Hto'. destruct Hto' as [_ Hanc]. apply negb_true_iff in Hanc.
+        unfold o at 1. rewrite (Hfol cl _ _ _ _ _ _ _ _ pk (Hchk cl Hcl) Hanc).
+        assert (Hfr : forallb (free (fst cl ++ [p]) (snd cl)) subs1 = true).
+        { rewrite <- (app_nil_r (snd cl)). apply frees_union; [|exact Ffree].
+          apply (hit_free s0 subs1 rp1 cl Ekr Hcl Hwf1).
+          intros x p' Hx Hp. apply (tame_anc o (fst cl) Hto x p'); [right; exact Hx|exact Hp]. }
+        pose proof (follows_reclaim kq _ _ _ _ _ _ _ _ (fst cl ++ [p], snd cl) Efq Hfr) as Hn. cbn [fst snd] in Hn.
+        rewrite Hn.
+        rewrite (bf_end_hit p c c' subs1 ret1 cmpres' res pend2 _ ((fst cl ++ [p]) ++ fst (cll subs1), snd cl ++ snd (cll subs1)) fh Ebe Hag Ecmp Hkq).
+        2:{ cbn [fst]. rewrite !existsb_app. intro Hx. apply orb_false_iff in Hx. destruct Hx as [Hx Hy].
+            rewrite Hanc, Hy. cbn. rewrite is_ancestor_irrefl. reflexivity. }
+        assert (Hcl3 : ClOK ((fst cl ++ [p]) ++ fst (cll subs1), snd cl ++ snd (cll subs1)) (core_put (adopt s0 rp1 o) p fh)).
+        { pose proof (ClOK_ext _ _ _ _ _ _ Hcl Xh) as Hx. unfold o in Hx. rewrite tree_regs_claims_BF_nonsf in Hx. cbn [fst snd] in Hx.
+          rewrite <- app_assoc. exact Hx. }
+        unfold o in Htk. rewrite tree_regs_claims_BF_nonsf in Htk. cbn [fst] in Htk.
+        assert (Eq : fst cl ++ p :: fst (cll subs1) = (fst cl ++ [p]) ++ fst (cll subs1)) by (rewrite <- app_assoc; reflexivity).
+        rewrite Eq in Htk.
+        rewrite (G1 _ Hcl3 Htk). cbn [fst snd]. rewrite cll_cons. unfold o. rewrite tree_regs_claims_BF_nonsf. cbn [fst snd].
+        rewrite <- !app_assoc. reflexivity.
+      + intros o0 Ho0 Hto. cbn [deepl flat_map] in Ho0. apply in_app_or in Ho0. destruct Ho0 as [Ho0|Ho0]; [|apply G2; assumption].
+        assert (Hdo : dfaith kq F o).
+        { apply dfaith_BF. split; [|eapply dfaith_list_mono; [apply LE|exact Hdl]].
+          right. right. cbn [faithful_op]. rewrite <- (Hfn p sa skw). rewrite Efq.
+          rewrite (bf_end_hit p c c' subs1 ret1 cmpres' res pend2 _ _ fh Ebe Hag Ecmp Hkq (fun H => H)). reflexivity. }
+        eapply dfaith_deep; eauto.
+      + intros q Hq. cbn [flat_map] in Hq. apply in_app_or in Hq. destruct Hq as [Hq|Hq].
+        * cbn [tree_outputs o app] in Hq. split.
+          -- eapply need_mono; [exact S3|exact S'|exact X'|]. rewrite (proj1 (proj2 (proj2 (proj2 S3)))). apply Hneed. exact Hq.
+          -- destruct Hq as [<-|Hq]; [exact Hpk|].
+             destruct (outputs_deepl _ _ Hq) as [x [Hx Hp]]. pose proof (kreplay_list_checks _ _ _ _ Ekr x Hx) as Hc0.
+             destruct x; try discriminate. cbn in Hp. inversion Hp; subst. exact Hc0.
+        * destruct (G3 q Hq) as [A B]. split; [exact A|]. eapply claimed_false_back; eauto.
+      + intros o0 Ho0. cbn [deepl flat_map] in Ho0. apply in_app_or in Ho0. destruct Ho0 as [Ho0|Ho0]; [|apply G4; assumption].
+        cbn [deep] in Ho0. destruct Ho0 as [<-|Ho0]; [exact Logic.I|]. apply Hwf1. exact Ho0.
+    - (* the function runs *)
+      destruct (core_run (fn p sa skw) (Some p) None [] (core_start (core_s0 s p fs1 dirs) p f sa skw)) as [s2 [[res pend2] bsubs]] eqn:Ec2.
+      destruct (ref_run (fn p sa skw) (Some p) None (ref_start r p f sa skw fs1r dirs)) as [r2 [res_r pend2_r]] eqn:Er2.
+      destruct (RInv_start tgt r p f sa skw fs1r dirs I Ecc Esr) as [I1 X1].
+      pose proof (KInv_start kp old vers clock0 _ p f sa skw (KInv_s0 kp old vers clock0 s p fs1 dirs K Wk Esk)) as K1.
+      rewrite Hfn in Ec2, Er2.
+      set (s1 := core_start (core_s0 s p fs1 dirs) p f sa skw) in *.
+      assert (L1 : sublog (k_log s1) (r_log (ref_start r p f sa skw fs1r dirs))) by (cbn; apply sl_keep; exact L).
+      pose proof (start_sim s r p f sa skw fs1 fs1r dirs S T1') as S1. fold s1 in S1.
+      destruct (T1 kp F old vers clock0 HR HW HF HN _ (Hob p sa skw) _ _ _ _ _ _ _ _ _ _ _ _ S1 K1 I1 L1 Ec2 Er2)
+        as [E1 [E2 [S2 [K2 [L2 [C1 C2]]]]]].
+      subst res_r pend2_r.
+      destruct (ref_run_inv _ _ _ _ _ _ _ I1 Er2) as [I2 X2].
+      destruct (core_finish s2 p c f sa skw bsubs res pend2) as [[s3 out3] o3] eqn:Ef.
+      destruct (ref_finish r2 p res pend2) as [r3 out3r] eqn:Efr.
+      assert (Hcl2 : mem_path p (k_claimedF s2) = true).
+      { rewrite (proj1 (proj2 S2) p). destruct X2 as [_ [X2 _]]. apply X2. cbn. rewrite path_eqb_refl. reflexivity. }
+      assert (Hclk : pend2 = None \/ (clock0 < k_clock s2)%N).
+      { destruct C2 as [C2|C2]; [left; exact C2|right]. destruct K1 as [_ [_ [_ [_ Kc]]]]. lia. }
+      destruct (finish_sim kp F old vers clock0 HW HF HN s2 r2 p c f sa skw bsubs res pend2 s3 out3 o3 r3 out3r S2 K2 Hcl2 Hclk Ef Efr)
+        as [E3 [S3 [K3 [Lk [Lr Ck]]]]].
+      subst out3r.
+      destruct (RInv_finish tgt r r2 p res pend2 r3 out3 I2 (rext_trans _ _ _ X1 X2) I Hpc Efr) as [I3 X3].
+      assert (L3 : sublog (k_log s3) (r_log r3)) by (rewrite Lk, Lr; exact L2).
+      destruct (T1 kp F old vers clock0 HR HW HF HN _ (Hk out3) _ _ _ _ _ _ _ _ _ _ _ _ S3 K3 I3 L3 Hc Hr) as [_ [_ [S' _]]].
+      destruct (ref_run_inv _ _ _ _ _ _ _ I3 Hr) as [_ X'].
+      destruct (core_run_ext _ _ _ _ _ _ _ _ _ Ec2) as [pn [Epn Xn]]. cbn [app] in Epn. subst pn.
+      destruct (core_run_ext _ _ _ _ _ _ _ _ _ Hc) as [pk [Epk Xk]].
+      rewrite Epk in E. symmetry in E. apply split_produced in E. subst produced.
+      pose proof (Ext_start s p fs1 dirs f sa skw (deepl bsubs) Ecs Esk) as Xst. fold s1 in Xst.
+      pose proof (Ext_wrapBF _ _ _ _ _ _ _ _ _ _ _ _ _ _ _ _ _ _ Ecs Esk Xn Ef) as Xw.
+      destruct (core_finish_rec _ _ _ _ _ _ _ _ _ _ _ _ Ef) as (rr & cr & ra & Hrec).
+      pose proof (NI_ext _ _ _ _ _ N Xst) as N1.
+      pose proof (NI_ext _ _ _ _ _ N1 Xn) as N2.
+      pose proof (NI_ext _ _ _ _ _ N Xw) as N3.
+      assert (P3 : PersT s3) by (exact (PersT_back _ _ _ _ _ Xk P)).
+      destruct (finish_keeps _ _ _ _ _ _ _ _ _ _ _ _ Ef) as [Hcf3 Hkeep].
+      assert (Hnofile : forall g, lookup (k_fs s2) p <> Some (NFile g)).
+      { intros g Hg. destruct (x_vis _ _ _ _ _ Xn p g Hg) as [H|[H|H]].
+        - unfold s1 in H. cbn in H. destruct (try_remove_char fs1 p p) as [E0|[_ [E0 _]]]; [|congruence].
+          rewrite E0 in H. assert (Hi : isfile fs1 p = true) by (apply isfile_lookup; eauto).
+          rewrite (try_remove_removes _ _ Hi) in E0. congruence.
+        - unfold s1 in H. cbn in H. rewrite stale_del_same in H. discriminate.
+        - pose proof (x_fresh _ _ _ _ _ Xn p H) as Hx. unfold s1 in Hx. cbn in Hx. rewrite path_eqb_refl in Hx. discriminate. }
+      assert (P2 : PersT s2).
+      { intros q g Hq Hl. apply P3; [rewrite Hcf3; exact Hq|]. apply Hkeep; [|exact Hl]. intro; subst q. exact (Hnofile g Hl). }
+      pose proof (IHfn p sa skw Wsa Wskw _ _ _ _ _ _ _ _ _ _ _ _ bsubs S1 K1 I1 L1 Ec2 Er2 N1 P2 eq_refl) as [F1 [F2 [F3 F4]]].
+      destruct (IHk _ _ _ _ _ _ _ _ _ _ _ _ _ _ S3 K3 I3 L3 Hc Hr N3 P Epk) as [G1 [G2 [G3 G4]]].
+      assert (Hcl3 : mem_path p (k_claimedF s3) = true) by (rewrite Hcf3; exact Hcl2).
+      assert (Hok : pend2 = None \/ path_ok p = true).
+      { destruct (core_run_pend _ _ _ _ _ _ _ _ _ Ec2) as [H|H]; auto. }
+      assert (Hdir : isdir (k_fs s2) p = true -> existsb (is_ancestor p) (fst (cll bsubs)) = true).
+      { intro Hd. destruct (x_dirs _ _ _ _ _ Xn p Hd) as [H|H]; [|exact H]. exfalso.
+        unfold s1 in H. cbn in H. apply try_remove_isdir in H. unfold isdir in H, Hnotdir.
+        destruct (setup_char _ _ _ _ _ Esk p) as [E0|[E0 _]]; [rewrite E0 in H; congruence|].
+        rewrite is_ancestor_irrefl in E0. discriminate. }
+      assert (Hout2 : forall q, In q (flat_map tree_outputs bsubs) -> In q (k_need s2)) by (intros q Hq; exact (proj1 (F3 q Hq))).
+      assert (BE : forall clE,
+                negb (existsb (is_ancestor p) (fst (cll bsubs))) || existsb (is_ancestor p) (flat_map tree_outputs bsubs) = true ->
+                existsb (is_ancestor p) (fst clE) = existsb (is_ancestor p) (fst (cll bsubs)) ->
+                bf_end kq p c bsubs rr cr ra res pend2 clE = Some out3).
+      { intros clE Hex HclE. eapply (own_end s2 r2 p c f sa skw bsubs res pend2 s3 out3 o3 rr cr ra clE); eauto. }
+      split; [|split; [|split]].
+      + intros cl Hcl Ht. cbn [tame_list] in Ht. apply andb_true_iff in Ht. destruct Ht as [Hto Htk].
+        rewrite Hrec in Hto, Htk. rewrite tame_BF in Hto. rewrite tree_regs_claims_BF_nonsf in Htk. cbn [fst] in Htk.
+        apply andb_true_iff in Hto. destruct Hto as [Hto Hexit]. apply andb_true_iff in Hto. destruct Hto as [Hto Hsub].
+        apply andb_true_iff in Hto. destruct Hto as [_ Hanc]. apply negb_true_iff in Hanc.
+        rewrite Hrec at 1. rewrite (Hfol cl _ _ _ _ _ _ _ _ pk (Hchk cl Hcl) Hanc).
+        assert (Hcl1 : ClOK (fst cl ++ [p], snd cl) s1).
+        { pose proof (ClOK_ext _ _ _ _ _ _ Hcl Xst) as Hx. cbn [fst snd] in Hx. rewrite app_nil_r in Hx. exact Hx. }
+        rewrite (Hfn p sa skw). rewrite (F1 _ Hcl1 Hsub). cbn [fst snd].
+        rewrite (BE ((fst cl ++ [p]) ++ fst (cll bsubs), snd cl ++ snd (cll bsubs)) Hexit).
+        2:{ cbn [fst]. rewrite !existsb_app, Hanc. cbn. rewrite is_ancestor_irrefl. reflexivity. }
+        assert (Hcl3' : ClOK ((fst cl ++ [p]) ++ fst (cll bsubs), snd cl ++ snd (cll bsubs)) s3).
+        { pose proof (ClOK_ext _ _ _ _ _ _ Hcl Xw) as Hx. cbn [fst snd] in Hx. rewrite <- app_assoc. exact Hx. }
+        assert (Eq : fst cl ++ p :: fst (cll bsubs) = (fst cl ++ [p]) ++ fst (cll bsubs)) by (rewrite <- app_assoc; reflexivity).
+        rewrite Eq in Htk.
+        rewrite (G1 _ Hcl3' Htk). cbn [fst snd]. rewrite cll_cons, Hrec, tree_regs_claims_BF_nonsf. cbn [fst snd].
+        rewrite <- !app_assoc. reflexivity.
+      + intros o0 Ho0 Hto. cbn [deepl flat_map] in Ho0. apply in_app_or in Ho0. destruct Ho0 as [Ho0|Ho0]; [|apply G2; assumption].
+        rewrite Hrec in Ho0. cbn [deep] in Ho0. destruct Ho0 as [<-|Ho0]; [|apply F2; assumption].
+        rewrite tame_BF in Hto.
+        apply andb_true_iff in Hto. destruct Hto as [Hto Hexit]. apply andb_true_iff in Hto. destruct Hto as [_ Hsub]. cbn [app] in Hsub.
+        apply dfaith_BF. split.
+        * destruct ra; [left; reflexivity|right; right]. cbn [faithful_op].
+          assert (Hcl1 : ClOK ([p], []) s1).
+          { split; cbn [fst snd]; [|intros; discriminate]. intros q Hq. cbn in Hq. rewrite orb_false_r in Hq.
+            unfold s1. cbn. rewrite Hq. reflexivity. }
+          rewrite (F1 _ Hcl1 Hsub). cbn [fst snd]. rewrite (BE _ Hexit); [reflexivity|].
+          cbn [fst app existsb]. rewrite is_ancestor_irrefl. reflexivity.
+        * apply dfaith_list_of. intros x Hx. apply F2; [apply deepl_top; exact Hx|]. eapply tame_list_top; eauto.
+      + intros q Hq. cbn [flat_map] in Hq. apply in_app_or in Hq. destruct Hq as [Hq|Hq].
+        * rewrite Hrec in Hq. cbn [tree_outputs] in Hq. apply in_app_or in Hq.
+          assert (Hneed3 : forall x, In x (k_need s2) -> x <> p \/ ra = false -> In x (k_need s3)).
+          { intros x Hx Hor. unfold core_finish in Ef. rewrite Hrec in Ef.
+            assert (Fl : forall e, (core_prune s2 p (OBuildFile p c f sa skw bsubs PNone PNone true false), @inr pyval exn e,
+                                    OBuildFile p c f sa skw bsubs PNone PNone true false)
+                                   = (s3, out3, OBuildFile p c f sa skw bsubs rr cr ra false) -> In x (k_need s3)).
+            { intros e E0. inversion E0; subst. cbn. apply In_del_path. split; [exact Hx|]. destruct Hor as [Hor|Hor]; [exact Hor|discriminate]. }
+            destruct res as [v|e]; [|eapply Fl; eauto].
+            destruct (sanitize v) as [sv|]; [|eapply Fl; eauto].
+            destruct pend2 as [b|]; [|eapply Fl; eauto].
+            destruct (write_file (k_fs s2) p b None (k_clock s2) (k_nextid s2)) as [fs3|e1]; [|eapply Fl; eauto].
+            inversion Ef; subst. exact Hx. }
+          destruct Hq as [Hq|Hq].
+          -- destruct ra; [destruct Hq|]. destruct Hq as [<-|[]]. split; [|exact Hpk].
+             eapply need_mono; [exact S3|exact S'|exact X'|]. apply Hneed3; [|right; reflexivity].
+             rewrite (proj1 (proj2 (proj2 (proj2 S2)))). destruct I2 as [[_ [_ Tg]] _]. apply Tg. reflexivity.
+          -- destruct (F3 q Hq) as [A B]. split.
+             ++ eapply need_mono; [exact S3|exact S'|exact X'|]. apply Hneed3; [exact A|left].
+                intro; subst q. unfold s1 in B. cbn in B. rewrite path_eqb_refl in B. discriminate.
+             ++ eapply claimed_false_back; [exact Xst|exact B].
+        * destruct (G3 q Hq) as [A B]. split; [exact A|]. eapply claimed_false_back; [exact Xw|exact B].
+      + intros o0 Ho0. cbn [deepl flat_map] in Ho0. apply in_app_or in Ho0. destruct Ho0 as [Ho0|Ho0]; [|apply G4; assumption].
+        rewrite Hrec in Ho0. cbn [deep] in Ho0. destruct Ho0 as [<-|Ho0]; [exact Logic.I|]. apply F4. exact Ho0.
+  Qed.
+
+  Theorem TN : forall pr, Obeys F pr -> WfArgs pr -> TN_at pr.
+  Proof.
+    induction 1 as [v|e|st q k Hk IHk|c k Hk IHk|st p c f a kw fn k Hfn Hob IHfn Hk IHk|st f a kw fn k Hfn Hob IHfn Hk IHk];
+      intro W.
+    - apply TN_Ret.
+    - apply TN_Raise.
+    - inversion W; subst. apply TN_Ask. intro o. apply IHk. auto.
+    - inversion W; subst. apply TN_Write. apply IHk. assumption.
+    - inversion W; subst. apply TN_BuildFile; auto.
+      intros p' a' k' W1 W2. apply IHfn. rewrite <- Hfn. auto.
+    - inversion W; subst. apply TN_Subbuild; auto.
+      intros a' k' W1 W2. apply IHfn. rewrite <- Hfn. auto.
+  Qed.
 End Main.
+
+Print Assumptions TN.
